@@ -59,11 +59,13 @@ P.assume('attributes of a node form a finite map name -> value (getattr/setattr 
 # ---------------------------------------------------------------- Context.persist / restore against arbitrary file contents
 # A.14: the payload of the auxiliary file is *any* Python object (or an exception from pickle.load).  PyObj is the object
 # protocol seen by the code: it is a dict (ISDICT) or not; subscripting / keys() on a non-dict raises.
-P.cls('PyObj')
+P.cls('PyObj', universal=True)
 P.cls('File')
 P.cls('Context', fields=dict(persistentLabels='dict[str,Macro]', labels='dict[str,Macro]', warnOnUnrecognized='bool'))
 P.uninterp('ISDICT', ['PyObj'], 'bool')
+P.uninterp('LOADED', [], 'PyObj?')     # ghost: what pickle.load returns for the current file content (if it returns)
 P.ghost('dumped', 'PyObj?')
+P.ghost('loaded', 'PyObj?')
 D = 'as_dict(self, "dict[str,PyObj?]")'
 P.fn('PyObj.keys', params=dict(self='PyObj'), returns='list[str]',
      raises={'Exception': 'iff:not ISDICT(self)'},
@@ -77,12 +79,15 @@ P.fn('PyObj.__setitem__', params=dict(self='PyObj', key='str', value='PyObj?'), 
      ensures=['key in %s' % D, '%s[key] is value' % D,
               'all(implies(k != key, (k in %s) == old(k in %s) and %s[k] is old(%s[k])) for k in Strs())' % (D, D, D, D)],
      modifies=[Mod('dict:str,PyObj?', 'r is self')], trusted=True, notes='item assignment: TypeError on a non-dict')
-P.fn('os.path.exists', params=dict(path='str'), returns='bool', trusted=True)
+P.uninterp('EXISTS', ['str'], 'bool')
+P.fn('os.path.exists', params=dict(path='str'), returns='bool', ensures=['result == EXISTS(path)'], trusted=True)
 P.fn('os.remove', params=dict(path='str'), returns='none', trusted=True,
      notes='assumed not to raise (the file was just seen to exist)')
 P.fn('open', params=dict(path='str', mode='str'), returns='File', raises={'Exception': 'True'}, allocates=True, trusted=True)
 P.fn('pickle.load', params=dict(fh='File'), returns='PyObj?', raises={'Exception': 'True'}, allocates=True, trusted=True,
-     ensures=['implies(not isnone(result) and ISDICT(result), all(implies(k in as_dict(result, "dict[str,PyObj?]"), '
+     ghost_sets={'loaded': 'LOADED()'},
+     ensures=['result is LOADED()', 'not fresh(result) or True',
+              'implies(not isnone(result) and ISDICT(result), all(implies(k in as_dict(result, "dict[str,PyObj?]"), '
               'as_dict(result, "dict[str,PyObj?]")[k] is not result) for k in Strs()))'],
      notes='returns an arbitrary object or raises an arbitrary Exception (truncated / corrupted / foreign file); assumed: a dict payload does not contain itself as a value')
 P.fn('pickle.dump', params=dict(obj='PyObj', fh='File'), returns='none', raises={'Exception': 'True'},
@@ -92,13 +97,17 @@ P.fn('Macro.persist/any', params=dict(self='Macro'), returns='PyObj', ensures=['
      notes='Macro.persist() returns a new dict (proved above under the typed contract Macro.persist)')
 
 DD = 'as_dict(ghost("dumped"), "dict[str,PyObj?]")'
+LD = 'as_dict(LOADED(), "dict[str,PyObj?]")'      # the loaded object's content, read in the OLD heap via old(...)
 P.fn(FC + 'Context.persist', name='Context.persist',
      params=dict(self='Context', filename='str', rtype="str='none'"), returns='none',
-     requires=['isnone(ghost("dumped"))', 'all(implies(k in self.persistentLabels, not isnone(self.persistentLabels[k])) for k in Strs())'],
+     requires=['isnone(ghost("dumped"))', 'isnone(ghost("loaded"))', 'all(implies(k in self.persistentLabels, not isnone(self.persistentLabels[k])) for k in Strs())'],
      # never raises for any file content; if something was written, it is a dict whose entry for this renderer is a dict
      # holding a record for every persistent label
      ensures=['implies(not isnone(ghost("dumped")), ISDICT(ghost("dumped")) and rtype in %s and not isnone(%s[rtype]) and ISDICT(%s[rtype]) and '
-              'all(implies(k in self.persistentLabels, k in as_dict(%s[rtype], "dict[str,PyObj?]")) for k in Strs()))' % (DD, DD, DD, DD)],
+              'all(implies(k in self.persistentLabels, k in as_dict(%s[rtype], "dict[str,PyObj?]")) for k in Strs()))' % (DD, DD, DD, DD),
+              # the entries saved earlier for OTHER renderers are kept when the old file was a dict (separately per renderer)
+              'implies(not isnone(ghost("dumped")) and not isnone(ghost("loaded")) and ISDICT(ghost("loaded")) and old(EXISTS(filename)), '
+              'all(implies(k != rtype and old(k in %s), k in %s and %s[k] is old(%s[k])) for k in Strs()))' % (LD, DD, DD, LD)],
      allocates=True, skip_frame=True,
      locals={'d': 'PyObj?', 'data': 'PyObj?', '{}': 'dict[str,PyObj?]'},
      calls={'os.path.exists': 'os.path.exists', 'os.remove': 'os.remove', 'open': 'open', 'pickle.load': 'pickle.load',
@@ -108,12 +117,12 @@ P.fn(FC + 'Context.persist', name='Context.persist',
          'data is as_dict(d, "dict[str,PyObj?]")[rtype]', 'not isnone(data)', 'ISDICT(data)', 'data is not d',
          'all(its[j][0] in as_dict(data, "dict[str,PyObj?]") for j in range(i))',
          'all((k in self.persistentLabels) == any(its[j][0] == k for j in range(len(its))) for k in Strs())',
-         'all(not isnone(its[j][1]) for j in range(len(its)))'],
+         'all(not isnone(its[j][1]) for j in range(len(its)))',
+         'implies(not isnone(ghost("loaded")) and ISDICT(ghost("loaded")) and EXISTS(filename), d is ghost("loaded") and '
+         'all(implies(k != rtype and old(k in %s), k in as_dict(d, "dict[str,PyObj?]") and as_dict(d, "dict[str,PyObj?]")[k] is old(%s[k])) for k in Strs()))' % (LD, LD)],
          modifies=[Mod('dict:str,PyObj?', 'r is data')])})
 P.unverified_surrounding('what pickle actually writes and reads (file system, pickle format): library; persisted attribute values of type Node')
 
-P.uninterp('EXISTS', ['str'], 'bool')
-P.contracts['os.path.exists'].ensures = ['result == EXISTS(path)']
 P.fn('PyObj.items', params=dict(self='PyObj'), returns='list[tuple[str,PyObj?]]', raises={'Exception': 'iff:not ISDICT(self)'},
      allocates=True, modifies=[Mod('list:tuple[str,PyObj?]', 'False')], trusted=True)
 P.fn('PyObj.get', params=dict(self='PyObj', key='str', default='str'), returns='str', raises={'Exception': 'not ISDICT(self)'}, trusted=True,
